@@ -143,7 +143,7 @@ int HSolver::LoadPrev()
 
     if ((fp=fopen(previousSolutionFile.c_str(),"rt"))==NULL)
 	{
-		return BADELEMENTFILE;
+		return false;
 	}
 
 	// parse the file
@@ -161,7 +161,7 @@ int HSolver::LoadPrev()
 	if (k==0)
 	{
 		fclose(fp);
-		return BADELEMENTFILE;
+		return false;
 	}
 
 	// read in the solution
@@ -170,7 +170,7 @@ int HSolver::LoadPrev()
 	if(k!=NumNodes)
 	{
 		fclose(fp);
-		return BADELEMENTFILE;
+		return false;
 	}
 
     Tprev=new double[NumNodes];
@@ -181,7 +181,7 @@ int HSolver::LoadPrev()
 		sscanf(s,"%lf	%lf	%lf",&x,&y,&Tprev[k]);
 	}
 
-	return 0;
+	return true;
 }
 
 LoadMeshErr HSolver::LoadMesh(bool deleteFiles)
@@ -862,9 +862,10 @@ bool HSolver::runSolver(bool verbose)
         return false;
     }
 
-    if (!LoadPrev() && verbose)
+    if (!LoadPrev())
     {
-        PrintMessage("Loading previous solution\n");
+        WarnMessage("problem loading the previous solution\n");
+        return false;
     }
 
     // renumber using Cuthill-McKee
